@@ -118,7 +118,7 @@ def witness_search(prop, f, timeout=120):
 
 # properties whose observation is an executing engine: the replay binary produces statements + catalogue / result queries, python's
 # sqlite3 (a real SQLite engine) executes them (vlib/engine.py)
-ENGINE_PROPS = ("C13",)
+ENGINE_PROPS = ("C13", "C07")
 ENGINE_STATS = {}
 
 
@@ -233,6 +233,7 @@ def check(prop, tier, seed):
             results.append((u, sd, fu.result()))
         replay_ok, replay_err = fut_replay.result()
 
+    inherit_props(prop, P, results)
     undecided = []
     for u, sd, r in results:
         if isinstance(r, str):
@@ -360,6 +361,61 @@ def check(prop, tier, seed):
     tot = sum(r["verified"] for _, _, r in results)
     print("OK property=%s units=%s verified_items=%d wall=%.1fs" % (prop, ",".join(sorted(by_unit)), tot, time.time() - t0))
     return 0
+
+
+def sqlite_overrides():
+    """names of the functions the SQLite backend defines itself (src/backend/sqlite/*.rs): a trait DEFAULT of that name is not what SQLite runs"""
+    import glob
+    names = set()
+    for f in glob.glob("/repo/src/backend/sqlite/*.rs"):
+        names |= set(re.findall(r"\bfn\s+([a-z_0-9]+)", open(f, encoding="utf-8").read()))
+    return names
+
+
+def inherit_props(prop, P, results):
+    """A property may be carried by the obligations another property's contracts already state (`inherit`: {from: [ids], dialect}): C07 (SQLite) is
+    carried by the clause-level contracts written for C08 - restricted to what the SQLite backend RUNS: its own overrides, and the trait
+    defaults it does not override; obligations of the MySQL / Postgres overrides (and of defaults SQLite overrides) do not bear on it."""
+    inh = P.get("inherit")
+    if not inh:
+        return
+    src, dialect = set(inh["from"]), inh.get("dialect")
+    ovr = sqlite_overrides() if dialect == "sqlite" else set()
+
+    def applies(key):
+        if not key:
+            return True
+        k = key[7:] if key.startswith("canary:") else key
+        if dialect == "sqlite":
+            if k.startswith(("MysqlQueryBuilder", "PostgresQueryBuilder", "MysqlTypes", "PostgresTypes")):
+                return False
+            m = re.match(r"(?:QueryBuilder|TableBuilder|IndexBuilder|ForeignKeyBuilder|EscapeBuilder|TableRefBuilder|QuotedBuilder)::([a-z_0-9]+)", k)
+            if m and m.group(1) in ovr:
+                return False
+            m2 = re.search(r"\[([^\]]*)\]", k)
+            if m2 and re.search(r"MySQL|Postgres", m2.group(1)) and "SQLite" not in m2.group(1):
+                return False
+        return True
+
+    for u, sd, r in results:
+        if not isinstance(r, dict):
+            continue
+        for f in r.get("failures", []):
+            if src & set(f["props"]) and applies(f.get("site_item")) and applies(f.get("clause_item")):
+                f["props"] = sorted(set(f["props"]) | {prop})
+        for k, info in (r.get("stubbed") or {}).items():
+            if src & set(info["props"]) and applies(k) and prop not in info["props"]:
+                info["props"] = list(info["props"]) + [prop]
+        unit = r.get("unit")
+        if unit is None or getattr(unit, "_inherited_" + prop, False):
+            continue
+        setattr(unit, "_inherited_" + prop, True)
+        for fn in unit.functions:
+            if fn.get("kind") == "fn" and src & set(fn.get("props") or []) and applies(fn["item"]) and prop not in fn["props"]:
+                fn["props"] = list(fn["props"]) + [prop]
+        for ctext, meta in unit.chunks:
+            if src & set(meta.get("props") or []) and applies(meta.get("key")) and prop not in meta["props"]:
+                meta["props"] = list(meta["props"]) + [prop]
 
 
 def run_one(u, seed):
